@@ -1,6 +1,7 @@
 (* C18 - introspection describes the schema truthfully.  Theorems only; proofs in
    SchemaOps/IntrospectProps.v. *)
-From GV Require Import Base.Prelude SchemaOps.Schema SchemaOps.Introspect SchemaOps.IntrospectProps.
+From GV Require Import Base.Prelude SchemaOps.Schema SchemaOps.Introspect SchemaOps.IntrospectProps
+  SchemaOps.Client SchemaOps.ClientProps.
 
 (* Under every combination of the 7 options the result of the standard introspection query equals
    the full-options result minus exactly the switched-off attributes, the deprecated input values
@@ -22,6 +23,26 @@ Theorem C18_prune_full_identity : forall pv s, prune full (introspect pv s full)
 Proof. intros. symmetry. apply options_prune. Qed.
 Print Assumptions C18_prune_full_identity.
 
+(* Building a client schema from the full result gives back the schema: same types of every kind
+   in the same order with all fields, arguments, default values, descriptions, deprecations,
+   interfaces, union members, enum values, input fields, OneOf and specifiedBy markers, directives
+   with locations and repeatability, root types and schema description.
+   Partial: (1) default values travel as printed literals - the theorem holds for every printer /
+   parser pair of literals that round-trips (print_ast / parse_const_value; properties C08/C15);
+   (2) [client_ok]: type references are at most type_depth = 9 wrappers deep, and containers that
+   do not apply to a type's kind are empty (introspection cannot carry them). *)
+Theorem C18_client_roundtrip_partial : forall pv parse, (forall v, parse (pv v) = Some v) ->
+  forall s, client_ok s -> build_client parse (introspect pv s full) = Some s.
+Proof. exact client_roundtrip. Qed.
+Print Assumptions C18_client_roundtrip_partial.
+
+(* ... and the client schema introspects to the same result again. *)
+Theorem C18_reintrospect_partial : forall pv parse, (forall v, parse (pv v) = Some v) ->
+  forall s, client_ok s ->
+  exists c, build_client parse (introspect pv s full) = Some c /\ introspect pv c full = introspect pv s full.
+Proof. exact reintrospect. Qed.
+Print Assumptions C18_reintrospect_partial.
+
 (* non-vacuity: a deprecated argument and a deprecated directive disappear, descriptions go *)
 Definition ex_pv (v : value) : list N := match v with VLeaf _ x => x | _ => [] end.
 Definition ex_q : typedef :=
@@ -40,3 +61,21 @@ Example C18_example :
   /\ get_key k_name (type_lookup ex_pv ex_s full [81]) = JStr [81]
   /\ type_lookup ex_pv ex_s full [82] = JNull.
 Proof. repeat split; try reflexivity. intro H. discriminate H. Qed.
+
+Example C18_example_client_ok : client_ok ex_s.
+Proof.
+  unfold client_ok, type_ok, canonical_type, dir_ok, field_ok, arg_ok, ex_s, ex_q; cbn.
+  repeat match goal with
+         | |- _ /\ _ => split
+         | |- Forall _ _ => constructor; cbn
+         | H : ?x <> ?x |- _ => exfalso; apply H; reflexivity
+         | |- _ -> _ => intro; cbn in *
+         | |- _ = _ => reflexivity
+         | |- (_ <= _)%nat => unfold TYPE_DEPTH; cbn; lia
+         | |- _ <= _ => cbn; lia
+         end.
+Qed.
+
+Example C18_example_roundtrip :
+  build_client (fun t => Some (VLeaf 1 t)) (introspect ex_pv ex_s full) = Some ex_s.
+Proof. reflexivity. Qed.
